@@ -152,7 +152,9 @@ def Debitable (P : Params) (c : DB) (b : Block) (a : Addr) : Prop :=
   ((b.height = P.act.devRewards ∨ b.height = P.act.v202) ∧
     a = (if b.height < P.act.v202 then P.oldBurnAddr else P.burnAddr))
 
-theorem authOK_debitable (P : Params) (c : DB) (b : Block) : AuthOK P (Debitable P c b) c b where
+theorem authOK_debitable (P : Params) (c : DB) (b : Block) :
+    AuthOK P (noDebitOutside (Debitable P c b)) (Debitable P c b) c b where
+  log _ := guarded_keep (·.addrs) (noDebit_keep _) (fun _ => rfl)
   txs es hes e he hv t ht := Or.inl ⟨es, hes, e, he, hv, t, ht, rfl⟩
   held row hrow hv t ht := Or.inr (Or.inl ⟨row, hrow, hv, t, ht, rfl⟩)
   mint hb := Or.inr (Or.inr (Or.inl ⟨hb, rfl⟩))
